@@ -85,9 +85,9 @@ func c06Writers(r *R, f *core.FSM) {
 		actionFns[a] = true
 	}
 	allowed := map[string]string{
-		"(*channels.Channels).CreateNew":                              "initial record literal",
-		"channels/internal/migrations.MigrateChannelState2To3":        "schema migration",
-		"(*channels/internal.ChannelState).UnmarshalCBOR":             "generated decoder",
+		"(*channels.Channels).CreateNew":                       "initial record literal",
+		"channels/internal/migrations.MigrateChannelState2To3": "schema migration",
+		"(*channels/internal.ChannelState).UnmarshalCBOR":      "generated decoder",
 	}
 	n := 0
 	seen := map[string]bool{}
